@@ -910,9 +910,14 @@ def analyse(timeout=600, dump=None, cross=False, jobs=8, only=None):
             vs = {x["verdict"] for x in verdicts.values()}
             q = {"name": name, "desc": desc, "expect": expect, "solvers": verdicts, "smt_assertions": len(ctx.asserts) + len(asserts)}
             q["is_witness"] = name.startswith("wit_")
-            if vs == {"unsat"}:
+            primary = verdicts[SOLVERS[0][0]]["verdict"]
+            others = {v["verdict"] for n2, v in verdicts.items() if n2 != SOLVERS[0][0]}
+            if vs == {"unsat"} or (primary == "unsat" and others <= {"unsat", "timeout", "unknown"}):
+                # the cross-checking solver may time out; only a contradicting answer matters
                 q["result"] = "unsat"
-            elif "sat" in vs and "unsat" not in vs:
+                if others - {"unsat"}:
+                    q["cross_check"] = "second solver gave no answer within the time limit"
+            elif primary == "sat" and "unsat" not in vs:
                 q["result"] = "sat"
                 q["witness"] = witness
                 q["witness_codepoints"] = [ord(c) for c in witness]
